@@ -126,6 +126,21 @@ fn run_range(
     case_json: &(dyn Fn(u64) -> Value + Sync),
     acc: &std::sync::Mutex<ShardResult>,
 ) {
+    run_range_inner(prop, space, start, end, tier, timeout, case_json, acc, false)
+}
+
+#[allow(clippy::too_many_arguments)]
+fn run_range_inner(
+    prop: &str,
+    space: &str,
+    start: u64,
+    end: u64,
+    tier: &str,
+    timeout: Duration,
+    case_json: &(dyn Fn(u64) -> Value + Sync),
+    acc: &std::sync::Mutex<ShardResult>,
+    retry: bool,
+) {
     match run_child(prop, space, start, end, tier, timeout) {
         ChildEnd::Ok(v) => {
             let mut a = acc.lock().unwrap();
@@ -160,11 +175,15 @@ fn run_range(
                 ChildEnd::Ok(_) => unreachable!(),
             };
             if end - start <= 1 {
+                // reproduce before believing: the same single case once more, alone
+                if !retry {
+                    return run_range_inner(prop, space, start, end, tier, timeout, case_json, acc, true);
+                }
                 let mut a = acc.lock().unwrap();
                 a.evals += 1;
                 let kind = if matches!(other, ChildEnd::Timeout) { "does-not-terminate" } else { "kills-the-process" };
                 a.viols.push((
-                    format!("{space}:{kind}"),
+                    format!("{prop}:{space}:{kind}"),
                     format!("case {start} of space {space}: {how} (abort, stack overflow or allocation failure; or no result within {} s)", timeout.as_secs()),
                     case_json(start),
                 ));
